@@ -25,7 +25,7 @@ func init() {
 			{"C01.guarded", ruleGuarded, ""},
 			{"C01.kernel", ruleKernelShapes("(*pogreb.index).bucketIndex", "(*pogreb.bucket).del", "(*pogreb.slotWriter).insert", "(*pogreb.slotWriter).write", "(*pogreb.index).createOverflowBucket", "(*pogreb.bucketIterator).next", "(*pogreb.index).newBucketIterator", "(pogreb.slot).kvSize", "(*pogreb.datalog).readKey", "(*pogreb.datalog).readKeyValue"), ""},
 		},
-		Explanation: "Decides structural necessary conditions of map semantics of the hash index, for all key sets and hash layouts at once: (chain-exit) no lookup/insert/delete/scan/compaction walk of a bucket chain can end before end-of-chain, an error or a key/record match; (match-equal) a key callback reports a match only behind bytes.Equal(sought key, key stored in the log for that slot); (count, overwrite-flag) index.numKeys moves +1 exactly on insertion of a new key and -1 exactly on a removal, after the bucket write; (split) a split updates the addressing state before redistributing, publishes numBuckets after both writes, frees old overflow buckets after the walk; (addressing) every walk starts at bucketIndex(hash of the key) and Put stores the slot with that hash and the location the log append returned. (chain-links) bucket.next is written only by decoding and by linking a bucket createOverflowBucket just handed out, and overflow buckets are put on the free list only under split, so no chain is cut or re-linked while it holds keys; NOT decided: equality with a reference map for all histories, the redistribution arithmetic itself, the hash function.",
+		Explanation: "Decides structural necessary conditions of map semantics of the hash index, for all key sets and hash layouts at once: (chain-exit) no lookup/insert/delete/scan/compaction walk of a bucket chain can end before end-of-chain, an error or a key/record match; (match-equal) a key callback reports a match only behind bytes.Equal(sought key, key stored in the log for that slot); (count, overwrite-flag) index.numKeys moves +1 exactly on insertion of a new key and -1 exactly on a removal, after the bucket write; (split) a split updates the addressing state before redistributing, publishes numBuckets after both writes, frees old overflow buckets after the walk; (addressing) every walk starts at bucketIndex(hash of the key) and Put stores the slot with that hash and the location the log append returned. (chain-links) bucket.next is written only by decoding and by linking a bucket createOverflowBucket just handed out, and overflow buckets are put on the free list only under split, so no chain is cut or re-linked while it holds keys; (size-mirror, guarded; shared) the cached file length that bucket offsets are derived from follows every length-changing call on success paths only, and the writers hold DB.mu exclusively. NOT decided: equality with a reference map for all histories, the redistribution arithmetic itself, the hash function.",
 		Assumptions: commonAssumptions,
 	})
 }
@@ -48,7 +48,7 @@ func init() {
 			{"C06.segment-end", ruleC03CompactComplete, ""},
 			{"C06.close-all-segments", ruleCloseOrder, ""},
 		},
-		Explanation: "Under the stated power-loss model, decides three structural necessary conditions over all paths: (sync-reaches-fsync) DB.Sync, and Put/Delete in sync-after-every-write mode, cannot return success without File.Sync on the current segment, except through the test 'current segment is sealed'; OS-backed File implementations resolve Sync to (*os.File).Sync; (seal-sync) a segment is marked full only after a successful File.Sync of that same segment, so nothing is left unflushed when the log moves on; (unlink-after-durable) in compaction every path from a record copy to FileSystem.Remove passes File.Sync of the current segment. NOT decided: the contents of each power-loss image; that fsync honours its contract.",
+		Explanation: "Under the stated power-loss model, decides three structural necessary conditions over all paths: (sync-reaches-fsync) DB.Sync, and Put/Delete in sync-after-every-write mode, cannot return success without File.Sync on the current segment, except through the test 'current segment is sealed'; OS-backed File implementations resolve Sync to (*os.File).Sync; (seal-sync) a segment is marked full only after a successful File.Sync of that same segment, so nothing is left unflushed when the log moves on; (unlink-after-durable) in compaction every path from a record copy to FileSystem.Remove passes File.Sync of the current segment. (segment-end, close-all-segments; shared) a short header read is not a clean end of segment, and Close visits every segment of the table (a gap in the ids does not end the loop). NOT decided: the contents of each power-loss image; that fsync honours its contract.",
 		Assumptions: commonAssumptions,
 	})
 	register("C09", &propDef{
@@ -64,7 +64,7 @@ func init() {
 			{"C09.meta-symmetry", ruleC02MetaSymmetry, ""},
 			{"C09.older-first", ruleC03OlderFirst, ""},
 		},
-		Explanation: "Decides, on the call-string-cloned interprocedural graph of DB.Close: (sync-before-close) every fs.File.Close of a written file that lies on a success path of DB.Close is preceded on every path by File.Sync on the same file (same access path through the call string) with no write in between; (commit-last) writeMeta, datalog.close, index.close precede LockFile.Unlock on every path, every success return passes Unlock, nothing touches the file system after Unlock, only DB.Close calls Unlock, and datalog.close skips only nil segments. (sync-before-close, extended) DB.mu is not released between a file's last Sync and its Close; NOT decided: that every power-loss image after Close reopens to the closed contents.",
+		Explanation: "Decides, on the call-string-cloned interprocedural graph of DB.Close: (sync-before-close) every fs.File.Close of a written file that lies on a success path of DB.Close is preceded on every path by File.Sync on the same file (same access path through the call string) with no write in between; (commit-last) writeMeta, datalog.close, index.close precede LockFile.Unlock on every path, every success return passes Unlock, nothing touches the file system after Unlock, only DB.Close calls Unlock, and datalog.close skips only nil segments. (sync-before-close, extended) DB.mu is not released between a file's last Sync and its Close; (older-first; shared) the ordering function of segments compares the sequence ids of its two arguments. NOT decided: that every power-loss image after Close reopens to the closed contents.",
 		Assumptions: commonAssumptions,
 	})
 }
@@ -86,7 +86,7 @@ func init() {
 			{"C15.thresholds", ruleC15Thresholds, ""},
 			{"C15.close-all-segments", ruleCloseOrder, ""},
 		},
-		Explanation: "Decides: (name-families) by abstract evaluation of every file-name expression reaching FileSystem.OpenFile/Remove/Rename through the call string, every removed name family is one the package creates, and every per-segment family that is created (segment file, its .pmt side file) is removed by removeSegment; recovery backups are removed; (curseg-live) every I/O through datalog.curSeg is behind the test '!curSeg.meta.Full' or a swapSegment, so a current segment that compaction sealed, closed and removed is never used; (remove-order) a segment is forgotten and closed before its files are unlinked, compact() returns nil only after removeSegment, Compact counts a segment only after compact() returned nil. (seal-sites) segments are marked full only below writeRecord, Compact/compact and recover; (forget-unlink-atomic) a segment's slot is released and its files are unlinked in one exclusive section of DB.mu; NOT decided: boundedness of directory size, descriptors and mappings over time.",
+		Explanation: "Decides: (name-families) by abstract evaluation of every file-name expression reaching FileSystem.OpenFile/Remove/Rename through the call string, every removed name family is one the package creates, and every per-segment family that is created (segment file, its .pmt side file) is removed by removeSegment; recovery backups are removed; (curseg-live) every I/O through datalog.curSeg is behind the test '!curSeg.meta.Full' or a swapSegment, so a current segment that compaction sealed, closed and removed is never used; (remove-order) a segment is forgotten and closed before its files are unlinked, compact() returns nil only after removeSegment, Compact counts a segment only after compact() returned nil. (seal-sites) segments are marked full only below writeRecord, Compact/compact and recover; (forget-unlink-atomic) a segment's slot is released and its files are unlinked in one exclusive section of DB.mu; (readdir-order, skip-continues) loops over a directory listing and over the segment table skip what they may skip and go on: they are left only at their bound or by failing. NOT decided: boundedness of directory size, descriptors and mappings over time.",
 		Assumptions: commonAssumptions,
 	})
 	register("C04", &propDef{
@@ -120,7 +120,7 @@ func init() {
 			{"C19.remove-only-compaction", ruleRemoveSegmentOnlyCompaction, ""},
 			{"C19.logger-non-nil", ruleLoggerNonNil, ""},
 		},
-		Explanation: "Decides with a forward value-flow (taint) analysis over every function reachable from recovery and segment iteration: no make/Grow/CopyN is sized by a value decoded from file bytes (binary.LittleEndian.UintN and arithmetic on it) unless the allocation is control dependent on a comparison 'tainted <= untainted bound' (the file length or a constant). NOT decided: total work/time of recovery; allocations inside encoding/gob (metadata is discarded by recovery).",
+		Explanation: "Decides with a forward value-flow (taint) analysis over every function reachable from recovery and segment iteration: no make/Grow/CopyN is sized by a value decoded from file bytes (binary.LittleEndian.UintN and arithmetic on it) unless the allocation is control dependent on a comparison 'tainted <= untainted bound' (the file length or a constant). The guard must contain the value that sizes the allocation as a term of a sum of non-negative quantities (a bound on another decoded field does not count). (layout; shared) the record type is taken from bit 31 of the value-size field and masked out before the record size is computed. NOT decided: total work/time of recovery; allocations inside encoding/gob (metadata is discarded by recovery).",
 		Assumptions: commonAssumptions,
 	})
 }
@@ -141,7 +141,7 @@ func init() {
 			{"C07.copied", ruleC14NoAliasOut, ""},
 			{"C07.no-retained-locations", ruleNoRetainedLocations, "primary"},
 		},
-		Explanation: "Decides only the critical-section structure linearizability needs, with a path-sensitive lockset analysis on the call-string-cloned interprocedural graph of every API entry: (guarded) every read/write of index, datalog, segment-meta and file-size state and every fs.File call on a shared index/segment file reachable from an entry is made with DB.mu held in the required mode; (one-section) Put, Delete, Get, GetAppend, Has, Count, Sync and one iterator refill never release DB.mu and take it again; (balanced) every entry returns with the lockset it was entered with. (no-retained-locations) no long-lived state can hold an index slot across critical sections; every store into memory reachable from the handle holds DB.mu exclusively; NOT decided: the existence of a linearization for every history.",
+		Explanation: "Decides only the critical-section structure linearizability needs, with a path-sensitive lockset analysis on the call-string-cloned interprocedural graph of every API entry: (guarded) every read/write of index, datalog, segment-meta and file-size state and every fs.File call on a shared index/segment file reachable from an entry is made with DB.mu held in the required mode; (one-section) Put, Delete, Get, GetAppend, Has, Count, Sync and one iterator refill never release DB.mu and take it again; (balanced) every entry returns with the lockset it was entered with. (no-retained-locations) no long-lived state can hold an index slot across critical sections; every store into memory reachable from the handle holds DB.mu exclusively; (copied; shared) what a scan queues and returns are private copies, not file-system memory. NOT decided: the existence of a linearization for every history.",
 		Assumptions: append([]string{"guarded-state table of DESIGN.md 2.2 (fields of index, datalog, segmentMeta, file.size; I/O on index and segment files)"}, commonAssumptions...),
 	})
 	register("C10", &propDef{
@@ -159,7 +159,7 @@ func init() {
 			{"C10.no-alias-out", ruleC14NoAliasOut, ""},
 			{"C10.no-retained-locations", ruleNoRetainedLocations, "primary"},
 		},
-		Explanation: "Decides the lock discipline race- and deadlock-freedom need: (guarded) as C07; (balanced) no lock leaked or double-released on any path, error paths included; (lock-order) the held->acquired graph over maintenanceMu, ItemIterator.mu, DB.mu is acyclic, no re-entrant acquisition, no WaitGroup.Wait/channel operation while a lock is held; (goroutine) the only goroutine is registered with the WaitGroup before it starts, defers Done, leaves its loop on ctx.Done(), and Close cancels it, waits, then locks; (fs-calls) directory operations on the database's FileSystem are made under DB.mu; (fs-readers-pure) File methods documented as thread-safe (Slice, ReadAt, Stat) do not write receiver state. (no-alias-out, no-retained-locations) no File.Slice memory and no index slot is kept across critical sections; every store into memory reachable from the handle holds DB.mu exclusively; NOT decided: absence of panics/faults in general (bounds checks are not provable here), races on state outside the tables, progress.",
+		Explanation: "Decides the lock discipline race- and deadlock-freedom need: (guarded) as C07; (balanced) no lock leaked or double-released on any path, error paths included; (lock-order) the held->acquired graph over maintenanceMu, ItemIterator.mu, DB.mu is acyclic, no re-entrant acquisition, no WaitGroup.Wait/channel operation while a lock is held; (goroutine) the only goroutine is registered with the WaitGroup before it starts, defers Done, leaves its loop on ctx.Done(), and Close cancels it, waits, then locks; (fs-calls) directory operations on the database's FileSystem are made under DB.mu; (fs-readers-pure) File methods documented as thread-safe (Slice, ReadAt, Stat) do not write receiver state. (no-alias-out, no-retained-locations) no File.Slice memory and no index slot is kept across critical sections; every store into memory reachable from the handle holds DB.mu exclusively; (ticker-positive) every time.NewTicker is reached only where its interval is known to be > 0 (a non-positive interval panics in the worker goroutine). NOT decided: absence of panics/faults in general (bounds checks are not provable here), races on state outside the tables, progress.",
 		Assumptions: commonAssumptions,
 	})
 }
@@ -257,7 +257,7 @@ func init() {
 			{"C12.size-mirror", ruleC04SizeMirror, ""},
 			{"C12.balanced", ruleBalanced, ""},
 		},
-		Explanation: "Decides: Backup holds maintenanceMu for all its file-system calls, guarded accesses and DB.mu acquisitions (compaction excluded for the whole backup, capture included); the copy bounds are file.size of not-full segments captured with DB.mu held; whole-file io.Copy is used only for segments absent from the captured map and io.CopyN is bounded by the captured size; every success return creates the lock file in the backup; the source file system is only opened read-only; datalog state is never read without DB.mu (guarded). NOT decided: that the opened backup equals the state at one instant for all schedules.",
+		Explanation: "Decides: Backup holds maintenanceMu for all its file-system calls, guarded accesses and DB.mu acquisitions (compaction excluded for the whole backup, capture included); the copy bounds are file.size of not-full segments captured with DB.mu held; whole-file io.Copy is used only for segments absent from the captured map and io.CopyN is bounded by the captured size; every success return creates the lock file in the backup; the source file system is only opened read-only; datalog state is never read without DB.mu (guarded). (size-mirror, balanced; shared) the captured bound is the maintained file.size; maintenanceMu and DB.mu are released on every path, failing ones included. NOT decided: that the opened backup equals the state at one instant for all schedules.",
 		Assumptions: commonAssumptions,
 	})
 }
@@ -294,7 +294,7 @@ func init() {
 			{"C18.record-validity", ruleC08Gates, ""},
 			{"C18.addressing", ruleKernelShapes("(*pogreb.index).bucketIndex", "(*pogreb.bucketIterator).next", "(*pogreb.index).newBucketIterator", "pogreb.encodedRecordSize", "(pogreb.slot).kvSize", "(*pogreb.datalog).readKey", "(*pogreb.datalog).readKeyValue"), ""},
 		},
-		Explanation: "Decides that the writer-side and reader-side tables of the current code equal the frozen tables of the documented/pinned format v2: header (signature bytes, version 2 LE @8, 512 bytes, written into every new file and checked on every existing one), bucket (31 slots x 16 bytes: hash u32@0, segmentID u16@4, keySize u16@6, valueSize u32@8, offset u32@12, LE; overflow pointer u64 LE @496; bucket i at 512+512*i), record layout (as C08), file names (%05d-%d.psg and the legacy form, .pmt, main.pix, overflow.pix, index.pmt, db.pmt, lock, .bac), gob metadata field names and types, MurmurHash3 constants. Layouts are extracted from the SSA of the marshal/unmarshal functions by an abstract interpreter for slice positions, not matched textually. (hash-absorption) the key hash absorbs its input front to back, each word little-endian, and its cursor advances by the bytes absorbed - the structural part of 'the same hash as the pinned version' (the mixing arithmetic and constants are not decided); NOT decided: opening a golden corpus (dynamic); gob wire compatibility beyond field names/types; bucket-addressing arithmetic.",
+		Explanation: "Decides that the writer-side and reader-side tables of the current code equal the frozen tables of the documented/pinned format v2: header (signature bytes, version 2 LE @8, 512 bytes, written into every new file and checked on every existing one), bucket (31 slots x 16 bytes: hash u32@0, segmentID u16@4, keySize u16@6, valueSize u32@8, offset u32@12, LE; overflow pointer u64 LE @496; bucket i at 512+512*i), record layout (as C08), file names (%05d-%d.psg and the legacy form, .pmt, main.pix, overflow.pix, index.pmt, db.pmt, lock, .bac), gob metadata field names and types, MurmurHash3 constants. Layouts are extracted from the SSA of the marshal/unmarshal functions by an abstract interpreter for slice positions, not matched textually. (hash-absorption) the key hash absorbs its input front to back, each word little-endian, and its cursor advances by the bytes absorbed - the structural part of 'the same hash as the pinned version' (the mixing arithmetic and constants are not decided); (older-first; shared) the order of segments is the order of the sequence ids in their names: the ordering function compares the sequence ids of its two arguments. NOT decided: opening a golden corpus (dynamic); gob wire compatibility beyond field names/types; bucket-addressing arithmetic.",
 		Assumptions: commonAssumptions,
 	})
 }
@@ -328,7 +328,7 @@ func init() {
 			{"C13.close-not-internal", ruleCloseNotInternal, ""},
 			{"C13.unlock-owner", ruleCloseOrder, ""},
 		},
-		Explanation: "Decides for the unix lock implementation (the one that can be built and reasoned about here; windows/plan9 are listed as not decided): success is returned only after a successful exclusive non-blocking flock on the descriptor opened here AND a re-validation, made after the flock, that the path still names the locked inode (os.SameFile of fstat and stat); Unlock unlinks the path before closing (the order the re-validation relies on); the in-memory lock refuses a held lock; Open takes the lock before any other file-system call, touches nothing when the lock is not acquired, recovers iff the lock file pre-existed; only a completed Close releases the lock. These forbid the known path/inode windows; they do NOT prove mutual exclusion under all interleavings, and the 'already existed' flag (stat before create) is reported as advisory only.",
+		Explanation: "Decides for the unix lock implementation (the one that can be built and reasoned about here; windows/plan9 are listed as not decided): success is returned only after a successful exclusive non-blocking flock on the descriptor opened here AND a re-validation, made after the flock, that the path still names the locked inode (os.SameFile of fstat and stat); Unlock unlinks the path before closing (the order the re-validation relies on); the in-memory lock refuses a held lock; Open takes the lock before any other file-system call, touches nothing when the lock is not acquired, recovers iff the lock file pre-existed; only a completed Close releases the lock. These forbid the known path/inode windows; they do NOT prove mutual exclusion under all interleavings, and the 'already existed' flag (stat before create) is reported as advisory only. (existed-fresh) the 'already existed' flag returned with the lock is computed in the attempt that acquired it, not carried around the retry loop.",
 		Assumptions: append([]string{"flock semantics of the host OS; os.SameFile compares device+inode"}, commonAssumptions...),
 	})
 	register("C16", &propDef{
@@ -358,7 +358,7 @@ func init() {
 			{"C17.fs-readers-pure", ruleFSReadersPure, ""},
 			{"C17.no-alias-out", ruleC14NoAliasOut, ""},
 		},
-		Explanation: "Decides only sibling agreement of the fs.File implementations on the points the database relies on: every length-changing method of the mapped and the in-memory file maintains its logical size (Truncate sets it to its argument, shrinking included) and the mapped file re-establishes its mapping on every success path; Slice indexes the backing memory only when end <= logical size and returns io.EOF otherwise; a file opened larger than the initial mapping is mapped whole; the mapping is PROT_READ and never stored through; thread-safe readers do not write receiver state; package pogreb never inspects the dynamic type of its file system and never keeps memory returned by Slice (which differs between implementations: private copy / shared buffer / mapping). Equality of results and segment bytes across file systems for all programs is a relational run-time property and is (direntry-info) the in-memory directory entry's Info() succeeds for files without an open handle, like lstat on the OS file systems; NOT decided.",
+		Explanation: "Decides only sibling agreement of the fs.File implementations on the points the database relies on: every length-changing method of the mapped and the in-memory file maintains its logical size (Truncate sets it to its argument, shrinking included) and the mapped file re-establishes its mapping on every success path; Slice indexes the backing memory only when end <= logical size and returns io.EOF otherwise; a file opened larger than the initial mapping is mapped whole; the mapping is PROT_READ and never stored through; thread-safe readers do not write receiver state; package pogreb never inspects the dynamic type of its file system and never keeps memory returned by Slice (which differs between implementations: private copy / shared buffer / mapping). Equality of results and segment bytes across file systems for all programs is a relational run-time property and is (direntry-info) the in-memory directory entry's Info() succeeds for files without an open handle, like lstat on the OS file systems; (readdir-order) loops over FileSystem.ReadDir's result are left only at their bound or by failing, so the work done does not depend on the listing order of the file system; (open-flags) openFile opens read-only with exactly O_RDONLY and otherwise with O_CREATE|O_RDWR (O_TRUNC for rewritten files). NOT decided.",
 		Assumptions: commonAssumptions,
 	})
 }
